@@ -4,7 +4,7 @@ import numpy as np
 from replay.run import register, NS, quiet, build_case, compare_result
 
 ROLE = {'read_inline': 'iline', 'read_crossline': 'xline', 'read_zslice': 'depth_slice', 'read_subvolume': 'subvolume',
-        'get_trace': 'trace', 'get_trace_window': 'trace', 'gen_trace_header': 'header', 'gen_trace_header_all': 'header'}
+        'get_trace': 'trace', 'get_trace_window': 'trace', 'gen_trace_header': 'header', 'gen_trace_header_all': 'header', 'gen_trace_header_irregular': 'header', 'get_trace_irregular': 'trace'}
 
 
 @register('history')
